@@ -29,7 +29,7 @@ import sqlalchemy.engine
 import sqlalchemy.orm
 
 P = 'C03'
-BUDGETS = {'C03': (55, 1500, 2)}
+BUDGETS = {'C03': (150, 2400, 2)}
 LEVELS = {'C03': 'fault_enumeration'}
 SHRINK = {'C03': (60, 25), 'C02': (60, 40)}
 WALL_LIMIT = {('C03', 'quick'): 240, ('C03', 'thorough'): 3000, ('C02', 'quick'): 240, ('C02', 'thorough'): 240}      # one re-execution = ~20 forked crawls
@@ -274,6 +274,7 @@ def run(tape, prop, tier):
         sched_seed = tape.draw(1 << 20, 'sched.seed')
         sched2_seed = tape.draw(1 << 20, 'sched2.seed')
         ksel = [tape.draw(1 << 16, 'kill.sel') for _ in range(8)]
+        ksel_commit = [tape.draw(1 << 16, 'kill.sel.commit') for _ in range(8)]
         second_kill = tape.chance(1, 4, 'second_kill')
         own = sorted({s.origin.host for s in starts})
         if ftp:
@@ -326,8 +327,11 @@ def run(tape, prop, tier):
             positions = list(range(1, N + 1))
             r.probes['workload_fully_enumerated'] += 1
         else:
-            positions = sorted({1 + (x % N) for x in ksel[:5]} | {first_req + (ksel[5] % max(1, N - first_req))} |
-                               {min(N, _after_nth_commit(kinds, ksel[6]))} | {min(N, _after_nth_commit(kinds, ksel[7]) + 1)})
+            # most loss windows are "a transaction is committed, the next one is not": besides a few instants anywhere, kill
+            # right after (and one instant after) drawn commits
+            positions = sorted({1 + (x % N) for x in ksel[:3]} | {first_req + (ksel[5] % max(1, N - first_req))} |
+                               {min(N, _after_nth_commit(kinds, ksel[6]))} | {min(N, _after_nth_commit(kinds, ksel[7]) + 1)} |
+                               {min(N, _after_nth_commit(kinds, x) + (x >> 8) % 2) for x in ksel_commit})
         if len(argv_urls) > 100 and tier != 'thorough' and prop == 'C03':
             # the import of the input URLs happens before the first request: put kills at its commit boundaries
             early = [i + 1 for i, kk in enumerate(kinds[:first_req]) if kk == 'commit']
